@@ -32,6 +32,14 @@ Example C16_ex : macro_lang (bs "und"%string) = MValue None
                      (mkE (mkU [(bs "ca"%string, [bs "buddhist"%string])] []) (mkT None [(bs "h0"%string, [bs "hybrid"%string])]) [])).
 Proof. split; vm_compute; reflexivity. Qed.
 
+(* the executable macro specifications (a well-formed literal must compile to the value the grammar assigns, an
+   ill-formed one must be a compile-time error, the lenient zone may go either way, never a run-time panic) that
+   judge the generated crates are corollaries of the theorems above: the MODEL's answer passes them on every literal *)
+From UL Require Oracle OracleSound OracleSoundRest.
+Theorem C16_oracle_spec_sound : forall op args r,
+  Oracle.oracle_model_macros op args = Some r -> OracleSound.passes (Oracle.oracle_spec_macros op args r).
+Proof. exact OracleSoundRest.macros_sound. Qed.
+
 Print Assumptions C16_lang.
 Print Assumptions C16_script.
 Print Assumptions C16_region.
@@ -40,3 +48,4 @@ Print Assumptions C16_langid.
 Print Assumptions C16_ill_formed.
 Print Assumptions C16_locale.
 Print Assumptions C16_locale_ill_formed.
+Print Assumptions C16_oracle_spec_sound.
